@@ -556,7 +556,18 @@ BUILTIN_FUNCS = {"isinstance": isinstance, "abs": abs, "bool": bool, "sum": sum,
                  # these are also known to the plain evaluator, which however loses the exception type: here a failure becomes the modelled exception
                  "int": int, "sorted": sorted, "min": min, "max": max, "len": len, "list": list, "tuple": tuple, "dict": dict, "set": set, "str": str, "bytes": bytes,
                  "map": lambda f, *its: [f(*a) for a in zip(*its)], "filter": lambda f, it: [x for x in it if (f(x) if f is not None else x)],
-                 "range": lambda *a: list(range(*a)), "ord": ord, "chr": chr}
+                 "range": lambda *a: list(range(*a)), "ord": ord, "chr": chr,
+                 # pure formatting / conversion builtins on plain values (numbers, str, bytes): delegated to CPython
+                 "format": lambda v, spec="": _plain_format(v, spec), "oct": oct, "bin": bin, "ascii": ascii, "pow": pow, "bytearray": bytearray, "frozenset": frozenset}
+
+
+def _plain_format(v, spec=""):
+    if not isinstance(v, (int, float, str, bool)) or not isinstance(spec, str):
+        raise NotConst("format() of a non-plain value")
+    return format(v, spec)
+
+
+_BUILTIN_FUNCS_END = None
 BUILTIN_NAMES = {"str": str, "bytes": bytes, "int": int, "bytearray": bytearray, "tuple": tuple, "list": list, "dict": dict, "set": set, "frozenset": frozenset,
                  "float": float, "bool": bool, "object": object, "memoryview": memoryview}
 
@@ -1449,6 +1460,96 @@ def norm_method(ctx, rel: str, clsname: str, name: str, keep=()):
     if not fs:
         raise Abstain(f"{clsname}.{name} vanished during normalisation")
     return fs[0]
+
+
+def flag_feasible_path(g, start, goal, must_take=None, avoid=(), exc=False, limit=20000):
+    """Is there a path start -> goal that is FEASIBLE with respect to local None-flags?  Local names assigned the constant None, a constructor / literal (not None) are tracked
+    along the path; tests `x is None` / `x is not None` / `x` / `not x` on a tracked name prune the infeasible edge (a flag set under one test and read under a later one, the
+    shape `err = None; if A: err = E(...); ...; if err is not None: raise`).  ``must_take`` = (test node, label): the path has to use that edge; ``avoid``: nodes it may not touch.
+    Everything else is over-approximated (unknown values take both edges)."""
+    def notnone(v):
+        if isinstance(v, ast.Constant):
+            return v.value is not None
+        if isinstance(v, (ast.List, ast.Tuple, ast.Dict, ast.Set, ast.JoinedStr, ast.Lambda, ast.ListComp, ast.DictComp, ast.SetComp, ast.BinOp)):
+            return True
+        if isinstance(v, ast.Call):
+            nm = (call_name(v) or "").split(".")[-1]
+            return bool(nm) and (nm[:1].isupper() or nm in ("list", "dict", "set", "tuple", "bytes", "str", "int", "object", "frozenset", "bytearray"))
+        return None
+
+    def step_state(st, node):
+        a = node.ast
+        if node.kind != "stmt" or a is None:
+            return st
+        tgts = []
+        if isinstance(a, ast.Assign):
+            tgts, val = a.targets, a.value
+        elif isinstance(a, ast.AnnAssign) and a.value is not None:
+            tgts, val = [a.target], a.value
+        elif isinstance(a, (ast.AugAssign, ast.For, ast.With, ast.Delete, ast.Import, ast.ImportFrom)):
+            killed = {x.id for x in ast.walk(a) if isinstance(x, ast.Name) and isinstance(x.ctx, (ast.Store, ast.Del))}
+            return {k: v for k, v in st.items() if k not in killed} if killed & set(st) else st
+        else:
+            return st
+        st = dict(st)
+        for t in tgts:
+            if isinstance(t, ast.Name):
+                if isinstance(val, ast.Constant) and val.value is None:
+                    st[t.id] = "none"
+                elif notnone(val):
+                    st[t.id] = "some"
+                else:
+                    st.pop(t.id, None)
+            else:
+                for x in ast.walk(t):
+                    if isinstance(x, ast.Name) and isinstance(x.ctx, ast.Store):
+                        st.pop(x.id, None)
+        return st
+
+    def verdict(test, st):
+        """True / False when the tracked flags decide the test, else None"""
+        e, neg = test, False
+        while isinstance(e, ast.UnaryOp) and isinstance(e.op, ast.Not):
+            e, neg = e.operand, not neg
+        r = None
+        if isinstance(e, ast.Name) and e.id in st:
+            r = False if st[e.id] == "none" else None        # a not-None object may still be falsy
+        elif isinstance(e, ast.Compare) and len(e.ops) == 1 and isinstance(e.left, ast.Name) and e.left.id in st and isinstance(e.comparators[0], ast.Constant) and e.comparators[0].value is None:
+            if isinstance(e.ops[0], (ast.Is, ast.Eq)):
+                r = st[e.left.id] == "none"
+            elif isinstance(e.ops[0], (ast.IsNot, ast.NotEq)):
+                r = st[e.left.id] != "none"
+        return None if r is None else (r != neg)
+    avoid = set(avoid)
+    goals = set(goal)
+    seen = set()
+    todo = [(n, (), must_take is None) for n in start]
+    steps = 0
+    while todo:
+        n, stt, taken = todo.pop()
+        key = (n, stt, taken)
+        if key in seen or n in avoid:
+            continue
+        seen.add(key)
+        steps += 1
+        if steps > limit:
+            return True          # give up: assume feasible (over-approximation)
+        if n in goals and taken:
+            return True
+        node = g.node(n)
+        st = step_state(dict(stt), node)
+        v = verdict(node.ast, st) if node.kind == "test" and node.ast is not None else None
+        for b, lab in g.succ.get(n, []):
+            if lab == "exc" and not exc:
+                continue
+            if v is not None and lab in ("T", "F") and (lab == "T") != v:
+                continue
+            tk = taken or (must_take is not None and n == must_take[0] and lab == must_take[1])
+            if must_take is not None and n == must_take[0] and lab in ("T", "F") and lab != must_take[1] and not taken:
+                todo.append((b, tuple(sorted(st.items())), False))
+                continue
+            todo.append((b, tuple(sorted(st.items())), tk))
+    return False
 
 
 def inline_predicates(normcls, origcls, keep=()):
